@@ -1126,11 +1126,114 @@ async fn diff_steps(a: &mut AcctWorld, b: &mut AcctWorld, hist: &History) -> Che
 // ---------------------------------------------------------------------------
 
 /// HOOK for engine B: "the upgraded device still syncs with its server without conflict".
-/// Intended shape: build the source account with `build_account`, sync it to a direct
-/// server, upgrade the client dir with `dry_run_then_upgrade`, sync again and require
-/// `Ok` with no conflict and equal statuses. Not implemented here.
-pub fn run_sync_part(_shard: &Shard, rep: &mut Report) {
-    rep.notes.push("sync part (post-upgrade sync against a server holding the pre-upgrade state) not built: needs engine B".to_string());
+pub fn run_sync_part(shard: &Shard, rep: &mut Report) {
+    let t = shard.tier;
+    drive(shard, rep, "upgrade-sync", shard.share(t.pick(128, 1_600)), upgrade_sync_strategy(), |c| check_upgrade_sync(c));
+}
+
+// ---------------------------------------------------------------------------
+// Sync part (engine B): an upgraded device still syncs with its server
+// ---------------------------------------------------------------------------
+
+#[derive(Clone, Debug, Serialize, Deserialize, PartialEq, Eq, Hash)]
+pub struct UpgradeSyncCase {
+    pub xchacha: bool,
+    pub balloon: bool,
+    pub server_db: bool,
+    /// edits made and synced before the upgrade
+    pub synced: Vec<crate::engine_sync::Edit>,
+    /// edits made after the last sync (unsynced state at upgrade time)
+    pub unsynced: Vec<crate::engine_sync::Edit>,
+}
+
+fn upgrade_sync_strategy() -> impl Strategy<Value = UpgradeSyncCase> {
+    (
+        any::<bool>(),
+        prop_oneof![3 => Just(false), 1 => Just(true)],
+        any::<bool>(),
+        proptest::collection::vec(crate::prop_c04::edit_strategy(), 0..6),
+        proptest::collection::vec(crate::prop_c04::edit_strategy(), 0..4),
+    )
+        .prop_map(|(xchacha, balloon, server_db, synced, unsynced)| UpgradeSyncCase { xchacha, balloon, server_db, synced, unsynced })
+}
+
+pub fn check_upgrade_sync(c: &UpgradeSyncCase) -> (CaseInfo, CheckResult) {
+    let mut info = CaseInfo::default();
+    let r = block_on(async {
+        let r = upgrade_sync_inner(c, &mut info).await;
+        sos_core::verif::set_clock(None);
+        r
+    });
+    (info, r)
+}
+
+async fn upgrade_sync_inner(c: &UpgradeSyncCase, info: &mut CaseInfo) -> CheckResult {
+    use crate::engine_sync::*;
+    use sos_protocol::{AsConflict, SyncOptions};
+    use sos_remote_sync::AutoMerge;
+    let cfg = AcctCfg { db: false, xchacha: c.xchacha, balloon: c.balloon };
+    let mut w = SyncWorld::new(&cfg, c.server_db).await?;
+    apply_edit(&mut w, 0, &Edit::CreateSecret { folder: 0, label: "one".into(), text: "1".into() }).await?;
+    for e in &c.synced {
+        apply_edit(&mut w, 0, e).await?;
+    }
+    for _ in 0..3 {
+        w.sync(0).await.map_err(|e| Failure::new("harness/initial-sync", format!("sync before the upgrade failed: {e}")))?;
+    }
+    let mut applied_unsynced = 0;
+    for e in &c.unsynced {
+        if apply_edit(&mut w, 0, e).await? {
+            applied_unsynced += 1;
+        }
+    }
+    info.class(if applied_unsynced > 0 { "unsynced-state-at-upgrade" } else { "synced-state-at-upgrade" });
+    info.nontrivial = applied_unsynced > 0 && !c.synced.is_empty();
+    let before = w.device_status(0).await?;
+    let dir = w.devices[0].temp.path().to_path_buf();
+    {
+        let mut a = w.devices[0].account.lock().await;
+        a.sign_out().await.map_err(hf("harness/sign-out", "sign_out before upgrade"))?;
+    }
+    upgrade_accounts(dir.clone(), UpgradeOptions { paths: Paths::new_client(&dir), dry_run: false, keep_stale_files: false, ..Default::default() })
+        .await
+        .map_err(|e| upgrade_failure("upgrade", &e))?;
+    let target = open_db_target(&dir, false).await?;
+    let mut account = LocalAccount::new_unauthenticated(w.account_id, target).await.map_err(|e| Failure::new("c19/sync/open-failed", format!("open the upgraded account: {e}")))?;
+    let key: AccessKey = w.password.clone().into();
+    account.sign_in(&key).await.map_err(|e| Failure::new("c19/sign-in-failed", format!("sign_in on the upgraded account: {e}")))?;
+    let after = account.sync_status().await.map_err(hf("harness/status", "sync_status after upgrade"))?;
+    let d = status_diff(&before, &after);
+    if !d.is_empty() {
+        return Err(Failure::new(format!("c19/sync/status-differs/{}", d[0].split('(').next().unwrap_or("").split(' ').next().unwrap_or("")), format!("sync status changed across the upgrade: {:?}", d)));
+    }
+    // swap the upgraded account into device 0 and sync against the server that holds the pre-upgrade state
+    let account = std::sync::Arc::new(tokio::sync::Mutex::new(account));
+    w.devices[0].account = account.clone();
+    w.devices[0].bridge = make_bridge(0, w.account_id, account, &w.server, &w.tap);
+    let n0 = w.tap.trace.lock().unwrap().len();
+    let bridge = w.devices[0].bridge.clone();
+    w.enter(0);
+    let res = bridge.execute_sync(&SyncOptions::default()).await;
+    w.leave(0);
+    let trace: Vec<&'static str> = w.tap.trace.lock().unwrap()[n0..].iter().map(|t| t.request).collect();
+    if let Err(e) = res {
+        return Err(Failure::new(
+            if e.is_conflict() { "c19/sync/conflict-after-upgrade" } else { "c19/sync/error-after-upgrade" },
+            format!("the upgraded device's first sync failed: {e} (requests {:?})", trace),
+        ));
+    }
+    if trace.contains(&"scan") {
+        return Err(Failure::new("c19/sync/conflict-after-upgrade", format!("the upgraded device's first sync went through conflict resolution (requests {:?})", trace)));
+    }
+    // a second sync settles folders created while unsynced (known C04 behaviour), then statuses must agree
+    let _ = w.sync(0).await;
+    let s = w.device_status(0).await?;
+    let server = w.server_status().await?.ok_or_else(|| Failure::new("harness/no-server-account", "server lost the account"))?;
+    let d = status_diff(&s, &server);
+    if !d.is_empty() {
+        return Err(Failure::new("c19/sync/diverged-after-upgrade", format!("after syncing the upgraded device its status differs from the server's: {:?}", d)));
+    }
+    Ok(())
 }
 
 // ---------------------------------------------------------------------------
@@ -1142,9 +1245,7 @@ fn run(shard: &Shard, rep: &mut Report) {
     drive(shard, rep, "upgrade", shard.share(t.pick(64, 1_000)), upgrade_strategy(12, 12), |c| check_upgrade(c));
     drive(shard, rep, "upgrade-server", shard.share(t.pick(32, 500)), upgrade_strategy(8, 12), |c| check_upgrade_server(c));
     drive(shard, rep, "differential", shard.share(t.pick(64, 1_000)), history_strategy(Mix::Reads, 25), |h| check_differential(h));
-    if shard.index == 0 {
-        run_sync_part(shard, rep);
-    }
+    run_sync_part(shard, rep);
 }
 
 fn replay(_shard: &Shard, sub: &str, case: &Value) -> CheckResult {
@@ -1156,6 +1257,10 @@ fn replay(_shard: &Shard, sub: &str, case: &Value) -> CheckResult {
         "upgrade-server" => {
             let c: UpgradeCase = from_case(case).map_err(|e| Failure::new("harness", e))?;
             check_upgrade_server(&c).1
+        }
+        "upgrade-sync" => {
+            let c: UpgradeSyncCase = from_case(case).map_err(|e| Failure::new("harness", e))?;
+            check_upgrade_sync(&c).1
         }
         "differential" => {
             let hst: History = from_case(case).map_err(|e| Failure::new("harness", e))?;
